@@ -14,7 +14,7 @@ def read(rel):
     with open(os.path.join(REPO, rel)) as f:
         return f.read()
 
-FLOAT = r"[0-9]+(?:\.[0-9]+)?(?:e-?[0-9]+)?"
+FLOAT = r"[0-9][0-9_]*(?:\.[0-9_]*)?(?:[eE][-+]?[0-9]+)?(?:_?f64)?"
 
 def one(pattern, text, what, all_equal=False):
     ms = re.findall(pattern, text)
@@ -27,10 +27,27 @@ def one(pattern, text, what, all_equal=False):
     return ms[0]
 
 def lean_float(lit):
-    # Lean scientific literals need a digit before 'e' and accept 1e-4 / 0.05 / 1.5 forms.
+    """Canonical Lean literal for a Rust float literal: the value decides the text, not the spelling
+    (`0.0001`, `1e-4`, `1.0E-4_f64` all become `1e-4`), so that a respelt constant is not a broken tie."""
+    from decimal import Decimal
     if not re.fullmatch(FLOAT, lit):
         raise ExtractError(f"unsupported float literal {lit!r}")
-    return lit if ("." in lit or "e" in lit) else lit + ".0"
+    t = lit.replace("_", "").lower()
+    if t.endswith("f64"):
+        t = t[:-3]
+    if t.endswith("."):
+        t += "0"
+    d = Decimal(t).normalize()
+    sign, digits, exp = d.as_tuple()
+    mant = int("".join(map(str, digits))) if digits else 0
+    if mant == 0:
+        return "0.0"
+    if exp >= 0:
+        return f"{mant * 10 ** exp}.0"
+    if exp >= -2:
+        s_ = f"{mant:0{-exp + 1}d}"
+        return f"{s_[:exp]}.{s_[exp:]}"
+    return f"{mant}e{exp}"
 
 def extract():
     c = {}
@@ -43,13 +60,13 @@ def extract():
     cargo = read("kcl-ezpz/Cargo.toml")
     newton = read("kcl-ezpz/src/solver/newton.rs")
 
-    c["EPSILON"] = one(rf"const EPSILON: f64 = ({FLOAT});", lib, "EPSILON")
-    c["REGULARIZATION_LAMBDA"] = one(rf"const REGULARIZATION_LAMBDA: f64 = ({FLOAT});", solver, "REGULARIZATION_LAMBDA")
+    c["EPSILON"] = one(rf"const\s+EPSILON\s*:\s*f64\s*=\s*({FLOAT})\s*;", lib, "EPSILON")
+    c["REGULARIZATION_LAMBDA"] = one(rf"const\s+REGULARIZATION_LAMBDA\s*:\s*f64\s*=\s*({FLOAT})\s*;", solver, "REGULARIZATION_LAMBDA")
     m = re.search(r"impl Default for Config \{.*?max_iterations: ([0-9]+),\s*convergence_tolerance: (" + FLOAT + r"),\s*step_tolerance: (" + FLOAT + r"),", solver, re.S)
     if not m:
         raise ExtractError("Config::default")
     c["DEFAULT_MAX_ITERATIONS"], c["DEFAULT_CONVERGENCE_TOLERANCE"], c["DEFAULT_STEP_TOLERANCE"] = m.groups()
-    c["ANGULAR_DISTANCE_TOLERANCE"] = one(rf"const ANGULAR_DISTANCE_TOLERANCE: f64 = ({FLOAT});", cons, "ANGULAR_DISTANCE_TOLERANCE", all_equal=True)
+    c["ANGULAR_DISTANCE_TOLERANCE"] = one(rf"const\s+ANGULAR_DISTANCE_TOLERANCE\s*:\s*f64\s*=\s*({FLOAT})\s*;", cons, "ANGULAR_DISTANCE_TOLERANCE", all_equal=True)
     c["DOF_RANK_TOLERANCE"] = one(rf"let tolerance = ({FLOAT}) \* largest_singular_value;", dof, "dof rank tolerance")
     c["DOF_PARTICIPATION_TOLERANCE"] = one(rf"let var_tol = ({FLOAT}) \* max_participation;", dof, "dof participation tolerance")
     c["VARS_PER_POINT"] = one(r"const VARS_PER_POINT: usize = ([0-9]+);", gv, "VARS_PER_POINT")
